@@ -209,6 +209,8 @@ PROPS = {
         'corr': ['corr:alias', 'corr:panic', 'corr:pp-internal-hook-unavailable'],
         'prop': ['C14'],
         'nontrivial': ['ops=', 'rendered-twice'],
+        'trusted': ['/repo/internal/verif_hooks.go + /repo/internal/verifcmd (build tag verif, commit f60f6c1): the command that renders each snapshot repeatedly through processInner and compares it with a fresh parse '
+                    '(reflect.DeepEqual); the rendering code of package internal is exercised by it, not modelled for this property (its text is modelled for C16: Model/UI.v)'],
         'input_fields': 3,
         'rule': 'hand-built snapshots (with spare capacity in Values/Calls/Processed slices and pre-rendered Processed strings) x random sequences of up to 8 operations among '
                 'Aggregate at the four levels (+ Args.String of every bucket call), Aggregated.ToHTML, Snapshot.ToHTML, Args.String of every snapshot call; checked: deep equality of the snapshot before/after, '
